@@ -115,9 +115,10 @@ class CSSMediaRule(cssrule.CSSRuleRules):
                 # TODO: remove special case
                 # may raise, nothing is changed then
                 newMedia.mediaText = mediatokens
-                self.media = newMedia
-                ok = ok and self.media.wellformed
+                # set only if everything else is accepted too
+                ok = ok and newMedia.wellformed
             else:
+                newMedia = None
                 ok = False
 
             # name (optional)
@@ -277,6 +278,7 @@ class CSSMediaRule(cssrule.CSSRuleRules):
                 ok = ok and wellformed
 
             if ok:
+                self.media = newMedia
                 self.name = name
                 self._setSeq(nameseq)
                 # replaced rules are detached
